@@ -353,6 +353,10 @@ V("twin-flatten-convention-via-local", "C11", "pyteal/compiler/flatten.py", "   
 V("router-clear-map-from-approval-mapper", "C15", "pyteal/ast/router.py", "            clear_sourcemap = self.clear_sourcemapper.get_sourcemap(self.clear_teal)", "            clear_sourcemap = self.approval_sourcemapper.get_sourcemap(self.clear_teal)", "R15.10")
 V("router-clear-compiled-under-approval-filename", "C15", "pyteal/ast/router.py", "                teal_filename=input.clear_filename,", "                teal_filename=input.approval_filename,", "R15.10")
 V("twin-router-results-via-locals", "C15", "pyteal/ast/router.py", "            clear_sourcemap = self.clear_sourcemapper.get_sourcemap(self.clear_teal)", "            mapper = self.clear_sourcemapper\n            clear_sourcemap = mapper.get_sourcemap(self.clear_teal)", None, "quiet")
+V("recompile-without-type-track-setting", "C15", "pyteal/compiler/compiler.py", "                assembly_type_track=self.assembly_type_track,\n                optimize=self.optimize,\n            )\n\n            _PyTealSourceMapper", "                optimize=self.optimize,\n            )\n\n            _PyTealSourceMapper", "R15.11")
+V("scratch-output-created-in-callers-context", "C02", "pyteal/ast/subroutine.py", "                with _frame_pointer_context(None):\n                    output_carrying_abi = output_kwarg_info.abi_type.new_instance()", "                if True:\n                    output_carrying_abi = output_kwarg_info.abi_type.new_instance()", "R02.2")
+V("normalize-parent-membership-by-equality", "C01", "pyteal/ir/tealblock.py", "                        if id(prev) not in [id(b) for b in outgoingBlock.incoming]:", "                        if prev not in outgoingBlock.incoming:", "R01.6e")
+V("twin-normalize-parent-membership-by-any", "C01", "pyteal/ir/tealblock.py", "                        if id(prev) not in [id(b) for b in outgoingBlock.incoming]:", "                        if not any(prev is b for b in outgoingBlock.incoming):", None, "quiet")
 V("if-chain-else-unchecked", "C05", "pyteal/ast/if_.py", "            require_type(self.elseBranch, self.thenBranch.type_of())\n\n        return", "            pass\n\n        return", "R05.9")
 V("if-chain-only-plain-else-checked", "C05", "pyteal/ast/if_.py", "            require_type(self.elseBranch, self.thenBranch.type_of())\n\n        return", "            if not isinstance(self.elseBranch, If):\n                require_type(self.elseBranch, self.thenBranch.type_of())\n\n        return", "R05.9")
 V("twin-if-chain-local-type", "C05", "pyteal/ast/if_.py", "            require_type(self.elseBranch, self.thenBranch.type_of())\n\n        return", "            then_type = self.thenBranch.type_of()\n            require_type(self.elseBranch, then_type)\n\n        return", None, "quiet")
